@@ -1,15 +1,38 @@
 import LospanVerif.Model.Pipeline
+import LospanVerif.Proofs.Circ
 /-
   C05 — a DevNonce is honoured at most once per device (unless the check is switched off).
-  The nonce insert is one atomic storage operation with a primary key (device, nonce); a handler
-  continues past it only if *its* insert succeeded. Hence for every interleaving of any number
-  of handlers: at most one of them gets past the insert for a given (device, nonce).
+  The nonce insert is one atomic storage operation on a table with primary key (device, nonce); a
+  handler changes keys only after *its own* insert succeeded. `keyedJoins` is the history of key
+  changes (device, DevNonce) made with the check on. The first theorem holds for EVERY event list:
+  any number of copies of a join-request through any number of gateways, every interleaving of their
+  handlers at storage-operation granularity, injected faults, crashes and restarts anywhere.
 -/
 namespace LospanVerif
 namespace Props.C05
-open Model.Pipeline Model.Phy
+open Model.Pipeline Model.Phy Proofs.Circ
 
-/-- The check on the snapshot: a nonce already in the device's history stops the handler, no effect. -/
+/-- **All schedules.** No (device, DevNonce) leads to a key change twice, and every key change was
+    preceded by the insert of its nonce into the table (so a later request with that nonce — also
+    after a crash or restart, the table being durable — fails the insert: `C05_second_insert_fails`). -/
+theorem C05_keyed_once (E D : Spec.Rfc4493.BlockFn) (cfg : Config) (db : DB) (evs : List Event) (x : Bytes × Nat) :
+    (run E D cfg (Sys.init db) evs).keyedJoins.count x ≤ 1 ∧
+    (x ∈ (run E D cfg (Sys.init db) evs).keyedJoins → x ∈ (run E D cfg (Sys.init db) evs).db.nonces) := by
+  obtain ⟨h1, h2⟩ := (kinv_run E D cfg _ evs (kinv_init cfg db)).jn x (by simp [jnBook])
+  simp only [Book.circ, jnBook] at h1 h2
+  refine ⟨by omega, fun hm => h2 ?_⟩
+  have : 0 < (run E D cfg (Sys.init db) evs).keyedJoins.count x := List.count_pos_iff.mpr hm
+  omega
+
+/-- The history entry and the key change are written together (check on). -/
+theorem C05_keychange_records (E : Spec.Rfc4493.BlockFn) (cfg : Config) (sys : Sys) (s : JoinSt) (h4 : s.pc = 4)
+    (hon : cfg.nonceCheckOff = false) :
+    (stepJoin E cfg sys s false).1.keyedJoins = sys.keyedJoins ∨
+    (stepJoin E cfg sys s false).1.keyedJoins = sys.keyedJoins ++ [(s.dev.eui, s.p.joinReq.devNonce)] := by
+  simp only [stepJoin, h4, Bool.false_eq_true, if_false]
+  split <;> simp [hon]
+
+/-- The check on the copy the handler read: a nonce already in the device's history stops the handler, no effect. -/
 theorem C05_reused_nonce_ignored (E : Spec.Rfc4493.BlockFn) (cfg : Config) (sys : Sys) (s : JoinSt) (fault : Bool)
     (h1 : s.pc = 1) (hon : cfg.nonceCheckOff = false) (d : Device) (hd : sys.db.byEUI s.p.joinReq.devEUI = some d)
     (hused : d.nonces.contains s.p.joinReq.devNonce = true) :
@@ -20,53 +43,36 @@ theorem C05_reused_nonce_ignored (E : Spec.Rfc4493.BlockFn) (cfg : Config) (sys 
   · rfl
   · simp [hd, hon, hmem]
 
-/-- The insert succeeds only for a nonce not yet stored, and stores it. -/
-theorem addNonce_fresh (db db' : DB) (e : Bytes) (n : Nat) (d : Device) (hd : db.byEUI e = some d)
-    (h : db.addNonce e n = some db') : d.nonces.contains n = false := by
+/-- The history a handler reads is the device's rows of the nonce table. -/
+theorem byEUI_nonces (db : DB) (e : Bytes) (d : Device) (h : db.byEUI e = some d) (n : Nat) :
+    n ∈ d.nonces ↔ (e, n) ∈ db.nonces := by
+  unfold DB.byEUI at h
+  cases hr : db.rowByEUI e with
+  | none => rw [hr] at h; cases h
+  | some r =>
+    rw [hr] at h
+    simp only [Option.map_some, Option.some.injEq] at h
+    subst h
+    simp [DB.noncesOf]
+
+/-- The insert succeeds only for a nonce not yet in the table, and stores it. -/
+theorem addNonce_fresh (db db' : DB) (e : Bytes) (n : Nat) (h : db.addNonce e n = some db') : (e, n) ∉ db.nonces := by
   unfold DB.addNonce at h
-  rw [hd] at h
-  simp only at h
   split at h
   · cases h
   · rename_i hc; simpa using hc
 
-theorem byEUI_eui (db : DB) (e : Bytes) (d : Device) (h : db.byEUI e = some d) : d.eui = e := by
-  unfold DB.byEUI at h
-  have := List.find?_some h
-  simpa using this
-
-theorem find_map_eui (l : List Device) (e : Bytes) (f : Device → Device) (hf : ∀ x, (f x).eui = x.eui) :
-    (l.map f).find? (·.eui == e) = (l.find? (·.eui == e)).map f := by
-  induction l with
-  | nil => rfl
-  | cons x xs ih =>
-    simp only [List.map_cons, List.find?_cons, hf]
-    split
-    · rfl
-    · exact ih
-
-theorem addNonce_stores (db db' : DB) (e : Bytes) (n : Nat) (d : Device) (hd : db.byEUI e = some d)
-    (h : db.addNonce e n = some db') : ∃ d', db'.byEUI e = some d' ∧ n ∈ d'.nonces := by
-  have he := byEUI_eui db e d hd
+theorem addNonce_stores (db db' : DB) (e : Bytes) (n : Nat) (h : db.addNonce e n = some db') : (e, n) ∈ db'.nonces := by
   unfold DB.addNonce at h
-  rw [hd] at h
-  simp only at h
   split at h
   · cases h
-  · cases h
-    unfold DB.byEUI at hd ⊢
-    simp only
-    rw [find_map_eui _ _ _ (by intro x; split <;> rfl), hd]
-    refine ⟨_, rfl, ?_⟩
-    simp [he]
+  · cases h; simp
 
 /-- Once a nonce is stored, a second insert of it fails — whichever handler tries, whenever. -/
-theorem C05_second_insert_fails (db db' : DB) (e : Bytes) (n : Nat) (d : Device) (hd : db.byEUI e = some d)
-    (h : db.addNonce e n = some db') : db'.addNonce e n = none := by
-  obtain ⟨d', hd', hc⟩ := addNonce_stores db db' e n d hd h
+theorem C05_second_insert_fails (db : DB) (e : Bytes) (n : Nat) (h : (e, n) ∈ db.nonces) : db.addNonce e n = none := by
   unfold DB.addNonce
-  rw [hd']
-  simp [hc]
+  rw [if_pos]
+  simpa using h
 
 /-- A handler whose insert fails (nonce already stored by another copy, or write error) stops:
     no key change, no join-accept. -/
